@@ -121,10 +121,10 @@ func (r *Run) InvOracle() []string {
 	for i, e := range w.Rec.Events {
 		switch e.Kind {
 		case "start":
-			state[e.Tid].load = nil
+			state[w.Rep(e.Tid).ID].load = nil
 		case "op":
 			if e.Op.Name == "RGet" {
-				s := state[e.Tid]
+				s := state[w.Rep(e.Tid).ID]
 				s.load = nil
 				ok := len(e.Op.Segs) > 0
 				for _, sg := range e.Op.Segs {
@@ -227,7 +227,7 @@ func (r *Run) firstIndexed(t *TaskH) (uint64, bool) {
 	// with start = 0 the step asks Latest(0) (after finding no position)
 	var sawNone bool
 	for _, e := range r.W.Rec.Events {
-		if e.Tid != t.ID || e.Kind != "op" {
+		if e.Kind != "op" || !r.W.SamePair(e.Tid, t) {
 			continue
 		}
 		switch {
@@ -319,8 +319,8 @@ func (r *Run) GrowthOracle(expectQuiescent bool) []string {
 				if prev != nil && cur.Num != prev.Num {
 					if cur.Num < prev.Num {
 						bad = append(bad, fmt.Sprintf("event %d task %d: position went back from %d to %d on a growing chain", i, t.ID, prev.Num, cur.Num))
-					} else if cur.Num-prev.Num > uint64(t.Info.Batch) {
-						bad = append(bad, fmt.Sprintf("event %d task %d: position advanced by %d > batch %d", i, t.ID, cur.Num-prev.Num, t.Info.Batch))
+					} else if cur.Num-prev.Num > uint64(w.MaxBatch(t)) {
+						bad = append(bad, fmt.Sprintf("event %d task %d: position advanced by %d > batch %d", i, t.ID, cur.Num-prev.Num, w.MaxBatch(t)))
 					}
 				}
 				c := cur
@@ -367,11 +367,11 @@ func (r *Run) headAtContact(t *TaskH, upto int) (uint64, bool) {
 	evs := r.W.Rec.Events
 	for i := upto; i >= 0; i-- {
 		e := evs[i]
-		if e.Tid == t.ID && e.Kind == "op" && e.Op.Name == "RLatest" && e.Op.N == 0 && e.Op.Fail == "" {
+		if e.Kind == "op" && r.W.SamePair(e.Tid, t) && e.Op.Name == "RLatest" && e.Op.N == 0 && e.Op.Fail == "" {
 			// Latest(0) is issued only for the initial position (a later Latest(local) with local = 0 cannot happen with start = 0)
 			return e.Op.RNum, true
 		}
-		if e.Tid == t.ID && e.Kind == "start" && i < upto {
+		if e.Kind == "start" && r.W.SamePair(e.Tid, t) && i < upto {
 			// reached the start of the committing step without Latest(0): keep looking in earlier steps
 			continue
 		}
@@ -496,7 +496,7 @@ func (r *Run) IsolationOracle() []string {
 	var prev *DbView
 	actors := map[int]bool{}
 	byID := map[int]*TaskH{}
-	for _, t := range w.Tasks {
+	for _, t := range w.All {
 		byID[t.ID] = t
 	}
 	sig := func(d *DbView, p pairKey) string {
@@ -580,17 +580,23 @@ func (r *Run) IsolationOracle() []string {
 // DepOracle: whenever a task with dependencies records position c, every
 // integration it references had, in the committed database at the moment the
 // step read the dependency position, a recorded position >= c for the same
-// source; a step that finds a referenced integration without any position
+// source; when the step unwound a reorg AFTER that read (a new iteration of
+// its loop: other tasks may have committed in between, read committed makes
+// that visible) the committed database at the beginning of that iteration is
+// what counts; a step that finds a referenced integration without any position
 // ends with nothing-new and writes nothing.
 func (r *Run) DepOracle() []string {
 	w := r.W
 	var bad []string
 	byID := map[int]*TaskH{}
-	for _, t := range w.Tasks {
+	for _, t := range w.All {
 		byID[t.ID] = t
 	}
 	var cur *DbView = &w.Init
-	atRead := map[int]*DbView{}
+	atRead := map[int]*DbView{}    // committed database when the step last read the dependency position
+	stale := map[int]bool{}        // the step unwound since that read: a new iteration of its loop began
+	iterStart := map[int]*DbView{} // committed database when that iteration began (own position re-read)
+	readNum := map[int]uint64{}
 	wrote := map[int]bool{}
 	missing := map[int]bool{}
 	for i, e := range w.Rec.Events {
@@ -601,15 +607,24 @@ func (r *Run) DepOracle() []string {
 			delete(atRead, e.Tid)
 			delete(wrote, e.Tid)
 			delete(missing, e.Tid)
+			delete(stale, e.Tid)
+			delete(iterStart, e.Tid)
 		case "op":
 			t := byID[e.Tid]
 			if len(t.Info.Deps) == 0 {
 				continue
 			}
 			switch e.Op.Name {
+			case "QLatest":
+				if stale[e.Tid] {
+					iterStart[e.Tid] = cur
+				}
 			case "QLatestDep":
 				atRead[e.Tid] = cur
+				readNum[e.Tid] = e.Op.RNum
+				stale[e.Tid] = false
 				src := w.Names.SrcID(t.Info.SrcName)
+				missing[e.Tid] = false
 				for _, d := range t.Info.Deps {
 					if _, ok := newestCur(cur, pairKey{src, w.Names.IGID(d)}); !ok {
 						missing[e.Tid] = true
@@ -619,11 +634,26 @@ func (r *Run) DepOracle() []string {
 				if e.Op.Fail == "" {
 					wrote[e.Tid] = true
 				}
+				if e.Op.Name == "DelCursors" && e.Op.Fail == "" {
+					// an unwind: the loop starts over and has to look at the dependencies again
+					stale[e.Tid] = true
+					delete(iterStart, e.Tid)
+				}
 				if e.Op.Name == "InsCursor" && e.Op.Fail == "" {
 					d := atRead[e.Tid]
 					if d == nil {
 						bad = append(bad, fmt.Sprintf("event %d: task %d recorded position %d without reading its dependencies", i, e.Tid, e.Op.Cur.Num))
 						continue
+					}
+					when := "when the step read the dependency position"
+					if stale[e.Tid] {
+						// the position was read before the step's last unwind; what counts is the
+						// committed state when the loop iteration that produced this position began
+						d = iterStart[e.Tid]
+						if d == nil {
+							d = cur
+						}
+						when = fmt.Sprintf("when this iteration of the step's loop began (the dependency position %d had been read before the step unwound)", readNum[e.Tid])
 					}
 					src := w.Names.SrcID(t.Info.SrcName)
 					for _, dep := range t.Info.Deps {
@@ -631,7 +661,7 @@ func (r *Run) DepOracle() []string {
 						if !ok {
 							bad = append(bad, fmt.Sprintf("event %d: task %d recorded position %d although referenced integration %q had not started", i, e.Tid, e.Op.Cur.Num, dep))
 						} else if c.Num < e.Op.Cur.Num {
-							bad = append(bad, fmt.Sprintf("event %d: task %d recorded position %d, referenced integration %q was only at %d", i, e.Tid, e.Op.Cur.Num, dep, c.Num))
+							bad = append(bad, fmt.Sprintf("event %d: task %d recorded position %d, referenced integration %q was only at %d %s", i, e.Tid, e.Op.Cur.Num, dep, c.Num, when))
 						}
 					}
 				}
@@ -661,7 +691,7 @@ func (r *Run) RangeOracle() []string {
 	w := r.W
 	var bad []string
 	byID := map[int]*TaskH{}
-	for _, t := range w.Tasks {
+	for _, t := range w.All {
 		byID[t.ID] = t
 	}
 	cur := &w.Init
